@@ -17,7 +17,8 @@ def carrier_list(tier):
             ('mixedlist', [2]), ('arr:float64', [2]), ('arr:float64', []), ('arr:int64', [2]), ('np:float64', []), ('np:int64', [])]
     more = [('np:' + d, []) for d in INT_DTYPES + FLT_DTYPES if d not in ('float64', 'int64')] + \
            [('arr:' + d, [2]) for d in INT_DTYPES + FLT_DTYPES if d not in ('float64', 'int64')] + \
-           [('arr:float64', [3]), ('arr:float64', [2, 2]), ('arr:int64', [1])]
+           [('arr:float64', [3]), ('arr:float64', [2, 2]), ('arr:int64', [1])] + \
+           [('nplist:' + d, [2]) for d in ('uint8', 'int8', 'int32', 'uint16')]      # Python lists of narrow NumPy integer scalars
     return base + more
 
 
@@ -68,6 +69,8 @@ def build_carrier(P, kind, vals, shape):
     if kind == 'nestedtuple':
         return (tuple(vals[0:2]), tuple(vals[2:4]))
     k, dt = kind.split(':')
+    if k == 'nplist':
+        return [P.npscalar(v, dt) for v in vals]
     if k == 'np':
         return P.npscalar(vals[0], dt)
     return P.arr(vals, dtype=dt, shape=tuple(shape))
